@@ -96,6 +96,14 @@ class _Expr(ast.NodeTransformer):
             return ast.copy_location(ast.BoolOp(op=ast.And(), values=[node.test, node.body]), node)
         if isinstance(node.body, ast.Constant) and node.body.value is True:
             return ast.copy_location(ast.BoolOp(op=ast.Or(), values=[node.test, node.orelse]), node)
+        # D[K] if K in D else X  ==  D.get(K, X)      (and the flipped form)
+        t = node.test
+        if isinstance(t, ast.Compare) and len(t.ops) == 1 and isinstance(t.ops[0], (ast.In, ast.NotIn)):
+            present, absent = (node.body, node.orelse) if isinstance(t.ops[0], ast.In) else (node.orelse, node.body)
+            if isinstance(present, ast.Subscript) and ast.dump(present.value) == ast.dump(t.comparators[0]) and ast.dump(present.slice) == ast.dump(t.left) \
+                    and isinstance(t.comparators[0], (ast.Name, ast.Attribute)) and not any(isinstance(x, ast.Call) for x in ast.walk(t.left)):
+                call = ast.Call(func=ast.Attribute(value=t.comparators[0], attr="get", ctx=ast.Load()), args=[t.left, absent], keywords=[])
+                return ast.copy_location(call, node)
         return node
 
     # ---- string building: %-format, concatenation, str() -> one f-string
@@ -169,6 +177,20 @@ class _Expr(ast.NodeTransformer):
     def visit_JoinedStr(self, node):
         self.generic_visit(node)
         return node
+
+
+def _stmt_lists(node: ast.AST):
+    """Every statement list inside `node` (not descending into nested function definitions)."""
+    for n in ast.walk(node):
+        if isinstance(n, (ast.FunctionDef, ast.AsyncFunctionDef, ast.Lambda)) and n is not node:
+            continue
+        for fld in ("body", "orelse", "finalbody"):
+            b = getattr(n, fld, None)
+            if isinstance(b, list) and b and isinstance(b[0], ast.stmt):
+                yield b
+        if isinstance(n, ast.Try):
+            for h in n.handlers:
+                yield h.body
 
 
 def _bool_typed(e: ast.AST) -> bool:
@@ -295,6 +317,59 @@ class _Stmt(ast.NodeTransformer):
                         new_nxt._elif = True
                     stmts = stmts[:i] + [ast.fix_missing_locations(new_nxt)] + stmts[i + 2:]
                     continue
+            # x = x + Y  ->  x += Y     (x a plain name)
+            if isinstance(s, ast.Assign) and len(s.targets) == 1 and isinstance(s.targets[0], ast.Name) and isinstance(s.value, ast.BinOp) and isinstance(s.value.op, ast.Add) \
+                    and isinstance(s.value.left, ast.Name) and s.value.left.id == s.targets[0].id and _uses(s.targets[0].id, [s.value.right]) == 0:
+                out.append(ast.copy_location(ast.AugAssign(target=ast.Name(id=s.targets[0].id, ctx=ast.Store()), op=ast.Add(), value=s.value.right), s))
+                i += 1
+                continue
+            # x = f"{x}rest"  ->  x += f"rest"     (string building already folded into one f-string)
+            if isinstance(s, ast.Assign) and len(s.targets) == 1 and isinstance(s.targets[0], ast.Name) and isinstance(s.value, ast.JoinedStr) and len(s.value.values) >= 2:
+                v0 = s.value.values[0]
+                if isinstance(v0, ast.FormattedValue) and isinstance(v0.value, ast.Name) and v0.value.id == s.targets[0].id and v0.conversion == -1 and v0.format_spec is None \
+                        and _uses(s.targets[0].id, s.value.values[1:]) == 0:
+                    rest = ast.copy_location(ast.JoinedStr(values=s.value.values[1:]), s.value)
+                    out.append(ast.copy_location(ast.AugAssign(target=ast.Name(id=s.targets[0].id, ctx=ast.Store()), op=ast.Add(), value=rest), s))
+                    i += 1
+                    continue
+            # x |= {*Y}  ->  x.update(Y)
+            if isinstance(s, ast.AugAssign) and isinstance(s.op, ast.BitOr) and isinstance(s.value, ast.Set) and len(s.value.elts) == 1 and isinstance(s.value.elts[0], ast.Starred) \
+                    and isinstance(s.target, ast.Name):
+                call = ast.Call(func=ast.Attribute(value=ast.Name(id=s.target.id, ctx=ast.Load()), attr="update", ctx=ast.Load()), args=[s.value.elts[0].value], keywords=[])
+                out.append(ast.copy_location(ast.Expr(value=ast.copy_location(call, s)), s))
+                i += 1
+                continue
+            # for T in IT: acc += E   ->   acc += sum(E for T in IT)      (acc a plain name not read by E or IT)
+            if isinstance(s, ast.For) and not s.orelse and len(s.body) == 1 and isinstance(s.body[0], ast.AugAssign) and isinstance(s.body[0].op, ast.Add) \
+                    and isinstance(s.body[0].target, ast.Name) and _uses(s.body[0].target.id, [s.body[0].value, s.iter]) == 0 \
+                    and not isinstance(s.body[0].value, (ast.List, ast.Constant, ast.JoinedStr)) \
+                    and any(isinstance(p_, ast.Assign) and len(p_.targets) == 1 and isinstance(p_.targets[0], ast.Name) and p_.targets[0].id == s.body[0].target.id
+                            and isinstance(p_.value, ast.Constant) and isinstance(p_.value.value, (int, float)) and not isinstance(p_.value.value, bool) for p_ in self._fn_assigns):
+                gen = ast.GeneratorExp(elt=s.body[0].value, generators=[ast.comprehension(target=s.target, iter=s.iter, ifs=[], is_async=0)])
+                call = ast.Call(func=ast.Name(id="sum", ctx=ast.Load()), args=[gen], keywords=[])
+                out.append(ast.fix_missing_locations(ast.copy_location(ast.AugAssign(target=s.body[0].target, op=ast.Add(), value=ast.copy_location(call, s)), s)))
+                i += 1
+                continue
+            # flag = True ; for ...: (... flag = False ; break ...) ; if flag: X   ->   for ...: (... break ...) else: X     (flag used nowhere else)
+            if isinstance(s, ast.Assign) and len(s.targets) == 1 and isinstance(s.targets[0], ast.Name) and isinstance(s.value, ast.Constant) and isinstance(s.value.value, bool) \
+                    and isinstance(nxt, ast.For) and not nxt.orelse and i + 2 < len(stmts) and isinstance(stmts[i + 2], ast.If) and not stmts[i + 2].orelse \
+                    and self._fn_uses.get(s.targets[0].id) == 3:
+                flag, init = s.targets[0].id, s.value.value
+                after = stmts[i + 2]
+                want_test = ast.unparse(after.test) == (flag if init else f"not {flag}")
+                sets = [(blk, k) for blk in _stmt_lists(nxt) for k, x in enumerate(blk)
+                        if isinstance(x, ast.Assign) and len(x.targets) == 1 and isinstance(x.targets[0], ast.Name) and x.targets[0].id == flag]
+                if want_test and len(sets) == 1:
+                    blk, k = sets[0]
+                    x = blk[k]
+                    if isinstance(x.value, ast.Constant) and x.value.value is (not init) and k + 1 < len(blk) and isinstance(blk[k + 1], ast.Break) \
+                            and sum(1 for b in ast.walk(nxt) if isinstance(b, ast.Break)) == 1:
+                        loop = copy.deepcopy(nxt)
+                        for blk2 in _stmt_lists(loop):
+                            blk2[:] = [y for y in blk2 if not (isinstance(y, ast.Assign) and len(y.targets) == 1 and isinstance(y.targets[0], ast.Name) and y.targets[0].id == flag)]
+                        loop.orelse = after.body
+                        stmts = stmts[:i] + [ast.fix_missing_locations(loop)] + stmts[i + 3:]
+                        continue
             # if A: (if B: X)   ->   if A and B: X      (no else on either)
             if isinstance(s, ast.If) and not s.orelse and len(s.body) == 1 and isinstance(s.body[0], ast.If) and not s.body[0].orelse:
                 inner = s.body[0]
@@ -336,6 +411,7 @@ class _Stmt(ast.NodeTransformer):
 
     _depth = 0
     _fn_uses: dict = {}
+    _fn_assigns: list = []
 
     def visit_FunctionDef(self, node):
         self._depth += 1
@@ -346,6 +422,7 @@ class _Stmt(ast.NodeTransformer):
                 if isinstance(x, ast.Name):
                     uses[x.id] = uses.get(x.id, 0) + 1
             self._fn_uses = uses
+            self._fn_assigns = [x for x in ast.walk(node) if isinstance(x, ast.Assign)]
         try:
             return self.generic_visit(node)
         finally:
@@ -555,10 +632,137 @@ def _inline_procedures(tree: ast.Module) -> ast.Module:
 
     sp = Splice()
     sp.visit(tree)
+    tree.body[:] = [n for n in tree.body if not (isinstance(n, ast.FunctionDef) and n.name in sp.done)]
+    return tree
+
+# ---------------------------------------------------------------------- keyword arguments of calls to the module's own functions
+def _positional_calls(tree: ast.Module) -> ast.Module:
+    """``self.is_started(worker, threshold=n)`` -> ``self.is_started(worker, n)``: a keyword argument that names the next positional
+    parameter of a function / method defined once in this module is the same call."""
+    sigs: dict[str, list] = {}
+    count: dict[str, int] = {}
+    for n in ast.walk(tree):
+        if isinstance(n, (ast.FunctionDef, ast.AsyncFunctionDef)):
+            count[n.name] = count.get(n.name, 0) + 1
+            a = n.args
+            if a.vararg or a.kwarg or a.posonlyargs:
+                continue
+            sigs[n.name] = [x.arg for x in a.args]
+    classes = {c.name for c in ast.walk(tree) if isinstance(c, ast.ClassDef)}
+
+    class K(ast.NodeTransformer):
+        def visit_Call(self, n):
+            self.generic_visit(n)
+            if not n.keywords or any(k.arg is None for k in n.keywords) or any(isinstance(a, ast.Starred) for a in n.args):
+                return n
+            f = n.func
+            name, skip = None, 0
+            if isinstance(f, ast.Attribute) and isinstance(f.value, ast.Name) and f.value.id in ({"self", "cls"} | classes):
+                name = f.attr
+                skip = 1 if f.value.id in ("self", "cls") else 0
+            elif isinstance(f, ast.Name):
+                name = f.id
+            if name is None or count.get(name) != 1 or name not in sigs:
+                return n
+            params = sigs[name]
+            if skip == 0 and isinstance(f, ast.Attribute) and params[:1] in (["self"], ["cls"]):
+                return n  # Class.method(obj, ...) spelling of an instance call: leave alone
+            params = params[skip:]
+            args = list(n.args)
+            kws = list(n.keywords)
+            while kws and len(args) < len(params) and kws[0].arg == params[len(args)]:
+                args.append(kws.pop(0).value)
+            if len(args) == len(n.args):
+                return n
+            return ast.copy_location(ast.Call(func=n.func, args=args, keywords=kws), n)
+
+    return K().visit(tree)
+
+
+def _inline_method_procedures(tree: ast.Module) -> ast.Module:
+    """``node._share(x)`` / ``Cls._bind(a, b)`` used once, as a statement, where the private method neither returns nor yields: the method's
+    statements take the place of the call (self -> the receiver, parameters -> the argument names)."""
+    count: dict[str, int] = {}
+    for n in ast.walk(tree):
+        if isinstance(n, (ast.FunctionDef, ast.AsyncFunctionDef)):
+            count[n.name] = count.get(n.name, 0) + 1
+    uses: dict[str, int] = {}
+    for n in ast.walk(tree):
+        if isinstance(n, ast.Attribute) and isinstance(n.ctx, ast.Load):
+            uses[n.attr] = uses.get(n.attr, 0) + 1
+    for cls in [c for c in ast.walk(tree) if isinstance(c, ast.ClassDef)]:
+        cands = {}
+        for m in cls.body:
+            if not isinstance(m, ast.FunctionDef) or not m.name.startswith("_") or m.name.startswith("__") or count.get(m.name) != 1 or uses.get(m.name) != 1:
+                continue
+            decos = [ast.unparse(d) for d in m.decorator_list]
+            if any(d != "staticmethod" for d in decos):
+                continue
+            body = [b for b in m.body if not (isinstance(b, ast.Expr) and isinstance(b.value, ast.Constant))]
+            a = m.args
+            if a.vararg or a.kwarg or a.kwonlyargs or a.posonlyargs or a.defaults or not body:
+                continue
+            if any(isinstance(x, (ast.Return, ast.Yield, ast.YieldFrom, ast.Await, ast.FunctionDef, ast.AsyncFunctionDef, ast.Lambda, ast.Global, ast.Nonlocal)) for b in body for x in ast.walk(b)):
+                continue
+            cands[m.name] = (body, [x.arg for x in a.args], "staticmethod" in decos)
+        if not cands:
+            continue
+        inlined: set = set()
+        for fn in [f for f in cls.body if isinstance(f, (ast.FunctionDef, ast.AsyncFunctionDef)) and f.name not in cands]:
+            fn_names = {x.id for x in ast.walk(fn) if isinstance(x, ast.Name)} | {a.arg for a in fn.args.args}
+            for blk in _stmt_lists(fn):
+                k = 0
+                while k < len(blk):
+                    st = blk[k]
+                    c = st.value if isinstance(st, ast.Expr) else None
+                    if isinstance(c, ast.Call) and isinstance(c.func, ast.Attribute) and c.func.attr in cands and isinstance(c.func.value, ast.Name) and not c.keywords \
+                            and all(isinstance(x, ast.Name) for x in c.args):
+                        body, params, static = cands[c.func.attr]
+                        recv = c.func.value.id
+                        m = {}
+                        if static:
+                            if len(params) != len(c.args):
+                                k += 1
+                                continue
+                            m = {p_: x.id for p_, x in zip(params, c.args)}
+                        else:
+                            if len(params) != len(c.args) + 1 or recv == cls.name:
+                                k += 1
+                                continue
+                            m = {params[0]: recv}
+                            m.update({p_: x.id for p_, x in zip(params[1:], c.args)})
+                        stored = {x.id for b in body for x in ast.walk(b) if isinstance(x, ast.Name) and isinstance(x.ctx, ast.Store)}
+                        if stored & set(params):
+                            k += 1
+                            continue
+                        for loc in stored:
+                            if loc in fn_names and loc not in m:
+                                m[loc] = loc + "_h"
+
+                        class Ren(ast.NodeTransformer):
+                            def visit_Name(self, n):
+                                return ast.copy_location(ast.Name(id=m.get(n.id, n.id), ctx=n.ctx), n)
+                        new = []
+                        for b in body:
+                            nb = Ren().visit(copy.deepcopy(b))
+                            for x in ast.walk(nb):
+                                if hasattr(x, "lineno"):
+                                    x.lineno = st.lineno
+                                    x.end_lineno = getattr(st, "end_lineno", st.lineno)
+                            new.append(nb)
+                        blk[k:k + 1] = new
+                        k += len(new)
+                        inlined.add(c.func.attr)
+                        continue
+                    k += 1
+        # an inlined helper has no caller left: it is dropped so that owner rules see its statements at the place they run
+        cls.body[:] = [m_ for m_ in cls.body if not (isinstance(m_, ast.FunctionDef) and m_.name in inlined)]
     return tree
 
 
 def normalize(tree: ast.Module) -> ast.Module:
+    # _positional_calls is not applied: too many rules state their expectation in the keyword spelling the code uses
+    tree = _inline_method_procedures(tree)
     tree = _inline_helpers(tree)
     tree = _inline_procedures(tree)
     tree = _Expr().visit(tree)
